@@ -31,6 +31,7 @@ def tasks(tier, pid):
         t += [('parse_concentration', u) for u in ('nM', 'uM', 'mM', 'M', 'ng/mL', 'umol/L', 'nmol/uL', 'mg/g', 'nm', 'um')]
     if pid == 'C11':
         t += [('fill_to', u) for u in ('uL', 'mL', 'mg', 'g', 'mmol', 'umol')]
+        t += [('dilute', u) for u in ('M', 'mM', 'nM', 'mg/mL', 'ug/g', 'nmol/g', 'mmol/mol')]
     if pid in ('C02', 'C01'):
         t += [('transfer', u) for u in ('uL', 'nL', 'mL', 'mg', 'ug', 'g', 'mmol', 'nmol', 'umol')]
     if pid in ('C01', 'C03'):
@@ -40,7 +41,8 @@ def tasks(tier, pid):
 
 SERVES = {'accuracy[get_concentration]': ['C10'], 'accuracy[parse_concentration]': ['C14'], 'accuracy[fill_to]': ['C11'],
           'accuracy[fill_to/others]': ['C11'], 'accuracy[size]': ['C02'], 'accuracy[conserve]': ['C01'], 'accuracy[conserve/all]': ['C01'], 'accuracy[nonneg/all]': ['C01', 'C03'], 'safe': ['C10', 'C14'],
-          'accept': ['C11', 'C02', 'C01']}
+          'accept': ['C11', 'C02', 'C01'],
+          'accuracy[dilute]': ['C11'], 'accuracy[dilute/others]': ['C11'], 'refuse-higher': ['C11']}
 
 REPLAY = r'''
 import json
@@ -83,6 +85,24 @@ def run():
         moved = measure(D2) - measure(D)
         ok = abs(moved - q) <= 1e-7 * q + 1e-9
         return {'ok': ok, 'observed': moved, 'expected': q, 'unit': J['unit'], 'contents': str(C.contents)}
+    if what == 'dilute':
+        from contracts.c14_grammar import concentration_denotation
+        mult, nb, db = concentration_denotation('1 ' + J['units'])
+        def conc(c):
+            num = Unit.convert_from(s, c.contents[s], config.moles_storage_unit, nb)
+            den = sum(Unit.convert_from(x, a, config.moles_storage_unit, db) for x, a in c.contents.items())
+            return num / den / float(mult)
+        cur = conc(C)
+        c = float(fr(J['c']))
+        # the model's target relative to the model's current concentration, carried over to the container as built
+        try:
+            R = C.dilute(s, '%%r %%s' %% (c, J['units']), w)
+        except ValueError as e:
+            ok = c > cur * 1.000001
+            return {'ok': ok, 'observed': 'ValueError: %%s' %% e, 'expected': 'refused iff the target is above the current concentration', 'current': cur, 'target': c}
+        got = conc(R)
+        ok = c <= cur * 1.000002 and abs(got - c) <= 3e-6 * c
+        return {'ok': ok, 'observed': got, 'expected': c, 'current': cur, 'units': J['units'], 'contents': str(C.contents)}
     return {'ok': None, 'error': 'no replay for ' + what}
 '''
 
@@ -233,6 +253,57 @@ def run_fill_to(pid, unit):
             res.append(vc.unsupported_result('Container.fill_to/unsupported', case, out.note))
             continue
         res += vc.discharge(I, 'Container.fill_to/', case, 30000)
+    return finish(pid, res)
+
+
+def run_dilute(pid, cunit):
+    """dilute(s, 'c cunit', w) with c between 1% and 50% of the current concentration — at EVERY scale of concentration
+    the two-component domain reaches (down to ~1e-11 M): the result has the target within the library's own band, only
+    the solvent changed; a target 1% above the current concentration is refused."""
+    from contracts.c14_grammar import concentration_denotation
+    res = []
+    case = f"dilute|{cunit}"
+
+    def body(I):
+        I.__dict__['round_mode'] = 'error'
+        C, s, w, measure, ms, vs = two_component(I)
+        mult, nb, db = concentration_denotation('1 ' + cunit, I.cfg.data['default_weight_volume_units'])
+        S = spec.SubSpec(1, mw(s), dens(s), sa(s))
+
+        def conc(amts):
+            return amts[s] * ms * spec.num(spec.factor(S, 'mol', nb)) / measure(amts, db) / spec.num(mult)
+        cur = conc({s: C.amt[s], w: C.amt[w]})
+        c = z3.Real('c')
+        higher = I.choose(2, 'target above the current concentration?') == 1
+        if higher:
+            I.assume(z3.And(c >= cur * z3.RealVal('101/100'), c <= cur * 100))
+        else:
+            I.assume(z3.And(c >= cur / 100, c <= cur / 2))
+        I.__dict__['_inputs'] = dict(model_inputs(C, s, w), c=c)
+        out = vc.call(I, 'Container.dilute', [C.obj, SubV(s), SegStr([NumHole(c), ' ', cunit]), SubV(w)])
+        if higher:
+            I.oblige('refuse-higher', out.kind == 'raise' and out.exc.cls == 'ValueError', 'property',
+                     note='a target above the current concentration is refused, however small both are')
+            return out
+        if out.kind != 'return':
+            I.oblige('accept', False, 'property', note=f'{out.exc.cls} at line {out.exc.lineno} for a target below the current concentration')
+            return out
+        r = out.value
+        amts = {}
+        for t in (s, w):
+            hit = [k_ for k_ in r.fields['contents'] if str(k_.term) == str(t)]
+            amts[t] = real(r.fields['contents'][hit[0]]) if hit else z3.RealVal(0)
+        band = z3.RealVal('3/1000000')
+        I.oblige('accuracy[dilute]', absz(conc(amts) - c) <= band * c, 'property',
+                 note=f'the diluted container has the target concentration ({cunit}) within the 1e-6 band')
+        I.oblige('accuracy[dilute/others]', absz(amts[s] - C.amt[s]) <= ABS, 'property')
+        return out
+    for I, out in vc.explore(body, contracts=clib.contracts(), max_paths=80):
+        if isinstance(out, vc.Outcome) and out.kind == 'unsupported':
+            res.append(vc.unsupported_result('Container.dilute/unsupported', case, out.note))
+            continue
+        res += vc.discharge(I, 'Container.dilute/', case, 40000, inputs=I.__dict__.get('_inputs'),
+                            replay_fn=lambda mv, ob: replay_job('dilute', mv, {'units': cunit, 'c': None}))
     return finish(pid, res)
 
 
